@@ -156,6 +156,12 @@ def lookup_jobs(prop, tier):
         for sz in (sizes if tier == 'thorough' else sizes[:2]):
             jobs.append({'kind': 'custom', 'module': 'lookups', 'func': 'run_lookup_job', 'name': 'lookups', 'op': 'lookups', 'N': N, 'size': sz,
                          'cfg': 'dev', 'feat': 'std', 'props': [prop]})
+    if prop == 'C11':
+        # embedded: the modelled slots at symbolic positions of an arena of up to 2^17 slots; node size 128 (a power of two keeps the
+        # pointer-offset division of get_node_id a shift for the solver; the replay uses the ordinary payload type)
+        for N in range(1, (4 if tier == 'quick' else 5)):
+            jobs.append({'kind': 'custom', 'module': 'lookups', 'func': 'run_lookup_embedded_job', 'name': 'lookups_embedded', 'op': 'lookups_embedded', 'N': N, 'size': 128,
+                         'cfg': 'dev', 'feat': 'std', 'props': [prop]})
     return jobs
 
 
